@@ -478,6 +478,23 @@ func (k *c06) addTies(r *rand.Rand, j *gen.Journal, info *gen.Info) {
 			gen.Dir{Kind: gen.KClose, Date: d + cal.Day(1), Acc: acc},
 		)
 	}
+	// two different prices of one pair on one day, declared in opposite directions: which one
+	// counts is a matter of their position in the sources, never of the loader's schedule
+	if r.Intn(2) == 0 {
+		var ps []gen.Dir
+		for _, x := range j.Dirs {
+			if x.Kind == gen.KPrice {
+				ps = append(ps, x)
+			}
+		}
+		if len(ps) > 0 {
+			d0 := ps[r.Intn(len(ps))]
+			j.Dirs = append(j.Dirs,
+				gen.Dir{Kind: gen.KPrice, Date: d0.Date, Com: d0.Com, Tgt: d0.Tgt, Price: gen.PriceStr(r)},
+				gen.Dir{Kind: gen.KPrice, Date: d0.Date, Com: d0.Tgt, Tgt: d0.Com, Price: gen.PriceStr(r)},
+			)
+		}
+	}
 }
 
 func (k *c06) inferTarget(r *rand.Rand, j *gen.Journal) string {
